@@ -127,6 +127,12 @@ SubsetLaws == stage = 1 =>
            /\ \A l \in DOMAIN whole :
                  /\ SubIntegral(x, g, S)[l] + SubIntegral(x, g, T)[l] = whole[l]
                  /\ SubIntegral(x, g, S)[l] = Integrate(Arr("n_face", g.lead, Masked(x, S)), g).data[l]
+\* the integral is homogeneous in the areas: a mesh shrunk so that every area is k times smaller integrates to a
+\* k times smaller value, at every scale (no threshold below which a face stops counting)
+ScaleLaw == stage = 1 =>
+    \A k \in {2, 3} : LET big == Integrate(Arr("n_face", g.lead, x), [ g EXCEPT !.A = [ f \in 1..g.nf |-> k * g.A[f] ] ]).data
+                           small == Integrate(Arr("n_face", g.lead, x), g).data
+                       IN \A l \in DOMAIN small : big[l] = k * small[l]
 Positive == stage = 1 => ((\A l \in DOMAIN x : \A f \in DOMAIN x[l] : x[l][f] >= 0) =>
                              \A l \in DOMAIN x : Integrate(Arr("n_face", g.lead, x), g).data[l] >= 0)
 
@@ -141,15 +147,34 @@ SideSet(F) == UNION { { { F[k][i], F[k][(i % Len(F[k])) + 1] } : i \in 1..Len(F[
 FaceCCW(N, face) == \A i \in 1..Len(face) : \A w \in 1..Len(face) :
                        (w # i /\ w # (i % Len(face)) + 1) =>
                            Det(N[face[i] + 1], N[face[(i % Len(face)) + 1] + 1], N[face[w] + 1]) > 0
+\* a 2 x 2 patch of the lattice <<6, i, j>>, two cells split into triangles: mixed sizes (padded table), and
+\* SCALABLE by the exact shrink map v -> (M - 1)(v.c)c + (c.c)v with c the x axis, i.e. <<M x, y, z>>
+PatchNodes == << <<6,0,0>>, <<6,0,1>>, <<6,0,2>>, <<6,1,0>>, <<6,1,1>>, <<6,1,2>>, <<6,2,0>>, <<6,2,1>>, <<6,2,2>> >>
+PatchFaces == << <<0, 3, 4, 1>>, <<3, 6, 7, 4>>, <<1, 4, 5>>, <<1, 5, 2>>, <<4, 7, 8>>, <<4, 8, 5>> >>
 OwnMeshes == { [ id |-> "k5_all_triangles", nodes |-> PentaNodes, faces |-> PentaFaces ],
-               [ id |-> "square_pyramid", nodes |-> PyrNodes, faces |-> PyrFaces ] }
+               [ id |-> "square_pyramid", nodes |-> PyrNodes, faces |-> PyrFaces ],
+               [ id |-> "patch6_tri_quad", nodes |-> PatchNodes, faces |-> PatchFaces ] }
+ShrinkX(M, v) == << M * v[1], v[2], v[3] >>
+ShrinkGen(M, cc, v) == LET k == (M - 1) * Dot(v, cc) IN << k * cc[1] + N2(cc) * v[1], k * cc[2] + N2(cc) * v[2], k * cc[3] + N2(cc) * v[3] >>
+\* cancellation-free exact area descriptor of a face: fan of triangles, each <<det, |a|^2, |b|^2, |c|^2, a.b, a.c, b.c>>
+TriDescr(u, v, w) == << Det(u, v, w), N2(u), N2(v), N2(w), Dot(u, v), Dot(u, w), Dot(v, w) >>
+PatchFaceAt(M, k) == [ j \in 1..Len(PatchFaces[k]) |-> ShrinkX(M, PatchNodes[PatchFaces[k][j] + 1]) ]
+PatchFan(M, k) == LET F == PatchFaceAt(M, k) IN [ t \in 1..(Len(F) - 2) |-> TriDescr(F[1], F[t + 1], F[t + 2]) ]
+\* the scale law, proved at small multipliers: the map is the stated one, orientation and convexity survive it,
+\* every fan triangle stays positively oriented
+PatchScaleOK == \A M \in {1, 2, 5} :
+    /\ \A n \in 1..Len(PatchNodes) : ShrinkX(M, PatchNodes[n]) = ShrinkGen(M, <<1, 0, 0>>, PatchNodes[n])
+    /\ \A k \in 1..Len(PatchFaces) : FaceCCW([ n \in 1..Len(PatchNodes) |-> ShrinkX(M, PatchNodes[n]) ], PatchFaces[k])
+    /\ \A k \in 1..Len(PatchFaces) : \A t \in 1..(Len(PatchFaces[k]) - 2) : PatchFan(M, k)[t][1] > 0
 OwnMeshesOK ==
     /\ \A m \in OwnMeshes : \A k \in 1..Len(m.faces) : FaceCCW(m.nodes, m.faces[k])
     /\ Cardinality(SideSet(PentaFaces)) = Len(PentaFaces)          \* n_edge = n_face
     /\ Len(PyrNodes) = Len(PyrFaces)                               \* n_node = n_face
     /\ Cardinality(SideSet(PyrFaces)) = 8
+    /\ PatchScaleOK /\ Cardinality(SideSet(PatchFaces)) = 14
 EmitOwn == PrintT(<<"M", { [ id |-> m.id, nodes |-> m.nodes, faces |-> m.faces,
-                             nn |-> Len(m.nodes), nf |-> Len(m.faces), ne |-> Cardinality(SideSet(m.faces)) ] : m \in OwnMeshes }>>)
+                             nn |-> Len(m.nodes), nf |-> Len(m.faces), ne |-> Cardinality(SideSet(m.faces)) ] : m \in OwnMeshes },
+                         [ M \in {1, 2, 5} |-> [ k \in 1..Len(PatchFaces) |-> PatchFan(M, k) ] ]>>)
 
 \* emitted once (in one distinguished initial state of Laws)
 EmitOwnOnce == (stage = 0 /\ g.nf = 1 /\ g.nn = 1 /\ g.ne = 1 /\ g.lead = 0 /\ g.A = <<1>>) => EmitOwn
@@ -176,7 +201,8 @@ Patterns == {"ones", "ramp", "mixed", "sparse", "lin"}
 AsDtype(v, dt) == IF dt = "bool" THEN (IF v % 2 = 0 THEN 0 ELSE 1) ELSE v
 
 CONSTANT Quads,      \* Cases: set of quadrature names, e.g. {"t4", "g3"}
-         Prevs       \* Cases: preceding operations on the grid, e.g. {"none", "face_areas", "compute_other"}
+         Prevs,      \* Cases: preceding operations on the grid, e.g. {"none", "face_areas", "compute_other"}
+         Scales      \* Cases: multipliers of the exact shrink map applied to the scalable patch
 
 CaseInit == /\ c \in { [ gi |-> gi, kind |-> k ] : gi \in 1..Len(Grids), k \in 1..3 }
             /\ g = <<>> /\ x = <<>> /\ y = <<>> /\ stage = 0 /\ ji = 0
@@ -185,7 +211,7 @@ CaseInit == /\ c \in { [ gi |-> gi, kind |-> k ] : gi \in 1..Len(Grids), k \in 1
 \* dataset holding the one variable.
 CaseRec(ls, dt, q, pv, p, lay, sto, api) ==
     [ gi |-> c.gi, kind |-> c.kind, lead |-> ls, dtype |-> dt, quad |-> q, prev |-> pv, pat |-> p,
-      layout |-> lay, storage |-> sto, api |-> api, sel |-> "" ]
+      layout |-> lay, storage |-> sto, api |-> api, sel |-> "", mult |-> 0 ]
 AllLeads == LeadShapes \cup { << Grids[c.gi].nf >> }          \* also a square table: lead length = n_face
 CaseNext == /\ DOMAIN c = {"gi", "kind"} /\ UNCHANGED <<g, x, y, stage, ji>>
             /\ c' \in
@@ -208,6 +234,12 @@ CaseNext == /\ DOMAIN c = {"gi", "kind"} /\ UNCHANGED <<g, x, y, stage, ji>>
                        ls \in { <<>>, <<2>> }, q \in Quads,
                        pv \in (IF c.kind = 1 /\ Grids[c.gi].mixed THEN {"none", "face_areas"} ELSE {}),
                        p \in {"ramp", "ones"}, sl \in {"evens", "odds", "low", "high"} }
+                 \* SCALE: the scalable patch shrunk by the exact map with multiplier m (faces down to ~1e-6 rad); whole
+                 \* mesh and one half of a partition; judged against the EXACT areas (class 1e-6), not only a fresh grid's
+                 \cup { [ CaseRec(ls, "float64", q, "none", p, "last", "numpy", IF sl = "" THEN "dataarray" ELSE "isel")
+                           EXCEPT !.sel = sl, !.mult = m ] :
+                       ls \in { <<>>, <<2>> }, q \in Quads, p \in {"ramp", "ones"}, sl \in {"", "evens", "high"},
+                       m \in (IF c.kind = 1 /\ Grids[c.gi].scalable THEN Scales ELSE {}) }
                  \cup { CaseRec(ls, dt, q, "none", p, "last", "numpy", "dataset") :
                        ls \in { <<>>, <<2>>, << Grids[c.gi].nf >> }, dt \in {"float64", "int64"}, q \in Quads,
                        p \in (IF c.kind = 1 THEN {"ramp", "ones"} ELSE {"ramp"}) }
@@ -252,7 +284,7 @@ CaseSquare == Len(c.lead) >= 1 /\ c.lead[Len(c.lead)] = Grids[c.gi].nf
 CaseEmit == CaseFull => PrintT(<<"K", [ grid |-> Grids[c.gi].id, kind |-> Kinds[c.kind], lead |-> c.lead, dtype |-> c.dtype,
                                         quad |-> c.quad, prev |-> c.prev, pat |-> c.pat, dims |-> CaseArr.dims,
                                         layout |-> c.layout, storage |-> c.storage, api |-> c.api, square |-> CaseSquare,
-                                        sel |-> c.sel,
+                                        sel |-> c.sel, mult |-> c.mult,
                                         sel_faces |-> IF c.api = "isel" THEN SetToSortSeq0(SelSet(c.sel, Grids[c.gi].nf)) ELSE <<>>,
                                         comp_faces |-> IF c.api = "isel" THEN SetToSortSeq0(SelSet(Comp(c.sel), Grids[c.gi].nf)) ELSE <<>>,
                                         name |-> CaseArr.name, table |-> CaseArr.data,
@@ -290,10 +322,12 @@ JClauses(r) ==
       WeightedSum        |-> got => Within12(r.q),
       LinearInData       |-> (got /\ Has(r, "qlin")) => Within12(r.qlin),
       OneGivesTotalArea  |-> (got /\ Has(r, "qone")) => Within12(r.qone),
-      PartitionIntegralsAdd |-> (got /\ Has(r, "qpart")) => Within12(r.qpart) ]
+      PartitionIntegralsAdd |-> (got /\ Has(r, "qpart")) => Within12(r.qpart),
+      \* against the exact areas of the shrunk faces: relative 1e-6 (the accuracy class of faces up to 10 degrees)
+      ScaledIntegralMatchesExact |-> (got /\ Has(r, "qx")) => r.qx[2] <= 1 ]
 JFailed(r) == LET cl == JClauses(r) IN { k \in DOMAIN cl : ~cl[k] }
 Judge == ji > 0 => LET r == Recs[ji]  fl == JFailed(r) IN
                   fl = {} \/ PrintT(<<"V", r.id, fl, IF r.coincident THEN "coincident-size" ELSE "distinct-size",
                                        [ api |-> r.api, layout |-> r.layout, storage |-> r.storage,
-                                         square |-> r.square, prev |-> r.prev ]>>)
+                                         square |-> r.square, prev |-> r.prev, mult |-> r.mult ]>>)
 =============================================================================
